@@ -9,6 +9,7 @@ def b2n (b : Bool) : Nat := if b then 1 else 0
 
 def Call.weight (k : Call) : Nat :=
   b2n (!k.started) + k.todo.length + 2 * k.todo.flatten.length + (k.sent.length - k.recv)
+  + 2 * b2n (!k.expired)
 
 def Conn.weight (cn : Conn) : Nat :=
   2 * b2n cn.pending + b2n cn.watcher + b2n (!cn.hs) + b2n (!cn.sawSig) + b2n (!cn.ageFired)
@@ -192,6 +193,17 @@ theorem internal_step_decreases {s s' : State} {l : Label} (hi : l.internal = tr
     simp only [Bool.and_eq_true, Bool.not_eq_true', decide_eq_true_eq] at hgd
     simp only [Call.weight]
     omega
+  case expire c j =>
+    simp only [step] at h
+    split at h
+    · refine weight_updCall h ?_
+      intro cn k hgd
+      simp only [Bool.and_eq_true, Bool.not_eq_true'] at hgd
+      simp only [Call.weight, Call.expire, hgd.2, b2n, List.length_append, List.length_nil,
+        List.flatten_nil, List.length_cons]
+      simp
+      omega
+    · cases h
 
 /-- A run of internal steps is no longer than the measure allows: the server's own activity
 always comes to rest. -/
@@ -225,6 +237,10 @@ theorem step_mono {s s' : State} {l : Label} (h : step s l = some s') :
   case ageTick | tlsTake =>
     split at h
     · obtain ⟨_, _, _, rfl⟩ := updConn_some h; simp
+    · cases h
+  case deadlineTick | expire =>
+    split at h
+    · obtain ⟨_, _, _, _, _, rfl⟩ := updCall_some h; simp
     · cases h
   case issue | peerDrop | connSig | connAge | connBreak | connDropWatcher | hsDone | final
       | clientHello | tlsDone | tlsFail =>
